@@ -698,6 +698,11 @@ static void exec_stmt(stmt_t *s, const char *op, sb_t *o) {
         sb_printf(o, ",\"got\":%lld,\"hex\":", (long long)got); sb_hex(o, b, got > 0 ? got : 0); free(b);
     }
     else if (!strcmp(op, "fault")) { shim_arm_fault((int)argll(s, "ordinal", 0), (int)argll(s, "cls", 0), (int)argll(s, "suppress", 0)); rc = 0; }
+    else if (!strcmp(op, "abandon")) { /* forget every open file without closing it (fault runs: ranks may be in different states) */
+        for (int i = 0; i < NFILES; i++) { ncid_open[i] = 0; ncids[i] = -1; }
+        shim_stop_matching();
+        rc = 0;
+    }
     else if (!strcmp(op, "cleanup")) { cleanup_script(o); rc = 0; }
     else { sb_put(o, ",\"err\":\"unknown op\""); }
     sb_printf(o, ",\"rc\":%d", rc);
